@@ -276,6 +276,58 @@ def router_retain(ctx, F, prefix, method):
             for i2, j2, pl, rv, s2 in body_.assigns():
                 if rv["k"] == "agg" and rv.get("adt") == "core::task::poll::Poll" and rv.get("variant") == "Ready" and pl["l"] in retl and i2 in flow.reach_avoiding(body_, [0], [c.bb for c in rts]):
                     early.append(s2["span"])
+    # an entry that answered Pending makes the whole sweep Pending: the Pending arm records it in a captured variable and the Ready
+    # answer is given only when that variable was left untouched (Ready while an entry is busy lets start_send hit a full sink,
+    # which is then evicted as "broken" and the frame is lost)
+    pp_ok, pp_why = False, "the Pending arm of the retain closure records nothing"
+    if sbb is not None and m.get("Pending") is not None:
+        reach_p = flow.reach_avoiding(cb, [m["Pending"]], [sbb])
+        marks = [(pl, rv) for i2, j2, pl, rv, s2 in cb.assigns() if i2 in reach_p and pl["l"] == 1 and "*" in pl["p"] and [e for e in pl["p"] if isinstance(e, int)]]
+        rts_ = [c for c in ib.calls() if c.name() == "retain"]
+        if marks and len(rts_) == 1:
+            k = [e for e in marks[0][0]["p"] if isinstance(e, int)][0]
+            v = flow.const_of(marks[0][1]["op"]) if marks[0][1]["k"] == "use" else None
+            # a store of the opposite value to the same variable elsewhere in the closure would erase the mark
+            erased = [1 for i2, j2, pl, rv, s2 in cb.assigns() if pl["l"] == 1 and "*" in pl["p"] and k in pl["p"] and i2 not in reach_p
+                      and isinstance(v, bool) and rv["k"] == "use" and flow.const_of(rv["op"]) == (not v)]
+            cl = None
+            for a in rts_[0].args[1:]:
+                r = flow.root(ib, a, through_calls=()) if a.get("k") in ("copy", "move") else None
+                if r and r[0] == "rv" and r[1]["k"] == "agg" and r[1].get("agg") == "closure":
+                    cl = r[1]
+            flag = None
+            if cl is not None and k < len(cl["ops"]) and cl["ops"][k].get("k") in ("copy", "move"):
+                cur, hops = cl["ops"][k]["pl"]["l"], 0
+                while cur is not None and hops < 6 and flag is None:
+                    defs = [rv for i2, j2, pl, rv, s2 in ib.assigns() if pl["l"] == cur and not pl["p"]]
+                    cur, hops = None, hops + 1
+                    if len(defs) == 1 and defs[0]["k"] == "ref" and not defs[0]["pl"]["p"]:
+                        flag = defs[0]["pl"]["l"]
+                    elif len(defs) == 1 and defs[0]["k"] == "use" and defs[0]["op"].get("k") in ("copy", "move") and not defs[0]["op"]["pl"]["p"]:
+                        cur = defs[0]["op"]["pl"]["l"]
+            if flag is None:
+                pp_why = "the variable the Pending arm writes could not be traced to the sweep"
+            elif erased:
+                pp_why = "another arm of the closure resets the Pending mark"
+            elif isinstance(v, bool):
+                fv = flow.derived(ib, {flag}, calls=())
+                sws = [i2 for i2, bl in enumerate(ib.blocks) if bl["term"]["k"] == "switch" and bl["term"].get("discr_ty") == "bool" and op_local(bl["term"]["discr"]) in fv
+                       and ib.dominates(rts_[0].bb, i2) and not bl.get("cleanup")]
+                readies = {i2 for i2, j2, pl, rv, s2 in ib.assigns() if rv["k"] == "agg" and rv.get("adt") == "core::task::poll::Poll" and rv.get("variant") == "Ready" and pl["l"] in retl}
+                bad = False
+                for sw in sws:
+                    t = ib.blocks[sw]["term"]
+                    edge = t["otherwise"] if v else t["targets"][0][1]
+                    if readies & flow.reach_avoiding(ib, [edge], [sw]):
+                        bad = True
+                pp_ok = bool(sws) and bool(readies) and not bad
+                pp_why = "the Ready answer is reachable with the mark set" if bad else "the mark is not tested before answering" if not sws else "ok"
+            else:
+                # the mark is the answer itself (e.g. `outcome = Poll::Pending`)
+                pp_ok = bool(retl & flow.derived(ib, {flag}, calls=()))
+                pp_why = "the recorded answer is not what is returned"
+    ctx.check(pp_ok, prefix + ".pending-propagates", "router:%s:ready-while-entry-pending" % method,
+              "Router::%s answers Pending whenever one of its entries did (%s)" % (method, "mark set in the Pending arm, tested before Ready" if pp_ok else pp_why), cb.span)
     ctx.check(not early, prefix + ".sweep-complete", "router:%s:early-ready" % method,
               "Router::%s answers Ready only after sweeping its entries (no early return%s)" % (method, (": " + early[0]) if early else ""), b.span)
     ctx.check(ok, prefix + ".evict-only-failed", "router:%s:evicts-healthy" % method, "Router::%s evicts an entry only when its %s returned Ready(Err) (not on Pending or Ok)" % (method, method), cb.span)
@@ -291,10 +343,11 @@ def counter_keys(ctx, F, body, routing, prefix, expected):
     ctx.check(keys == want, prefix + ".counter-keys", "insert-keys", "entries are registered under their id counters (found %s, expected %s)" % (keys, want), body.span)
     for obj, cname in sorted(expected.items()):
         ls = body.local_by_debug(cname)
+        lsv = flow.derived(body, set(ls), calls=())        # reborrows handed to a helper such as `id.advance()`
         writes = []
         wblocks = []
         for i, j, pl, rv, s in body.assigns():
-            if pl["l"] in ls and "*" in pl["p"]:
+            if pl["l"] in lsv and "*" in pl["p"]:
                 r = flow.root(body, rv["op"]) if rv["k"] == "use" else ("rv", rv)
                 writes.append(r[0] == "rv" and r[1]["k"] == "binop" and r[1]["op"] in ("AddWithOverflow", "Add") and flow.const_of(r[1]["b"]) == 1)
                 wblocks.append(i)
